@@ -380,7 +380,7 @@ fn batch_fault(rep: &mut Report, rng: &mut Rng, h: &mut History, g: &mut Gen, wo
     let mut batch = valid.clone();
     batch.insert(pos.min(batch.len()), bad);
     let posname = ["first", "middle", "last"][pos];
-    let api = *rng.pick(&["annotate_from_iter", "annotate_from_file", "query-add", "query-add-offset"]);
+    let api = *rng.pick(&["annotate_from_iter", "annotate_from_file", "annotate_from_file-malformed-item", "query-add", "query-add-offset"]);
     let Some(before) = snapshot(&h.store) else { return };
     rep.eval();
     let outcome: Result<Result<(), String>, Panic> = match api {
@@ -394,6 +394,29 @@ fn batch_fault(rep: &mut Report, rng: &mut Rng, h: &mut History, g: &mut Gen, wo
             if items.len() != batch.len() {
                 return;
             }
+            let path = format!("{}/c14-{}.annotations.json", workdir, k);
+            std::fs::write(&path, serde_json::to_string(&items).unwrap()).expect("write");
+            let r = guard(|| h.store.annotate_from_file(&path).map(|_| ()).map_err(|e| format!("{}", e)));
+            let _ = std::fs::remove_file(&path);
+            r
+        }
+        "annotate_from_file-malformed-item" => {
+            // the invalid item is not a well-formed annotation at all (no target / no @type / target of the wrong JSON type):
+            // the file is refused while it is read, before anything is added
+            let mut items: Vec<Value> = valid.iter().filter_map(req_json).collect();
+            if items.len() != valid.len() {
+                return;
+            }
+            let mut broken = items[0].clone();
+            broken["@id"] = json!("malformed-item");
+            match rng.below(3) {
+                0 => {
+                    broken.as_object_mut().map(|o| o.remove("target"));
+                }
+                1 => broken["target"] = json!(7),
+                _ => broken["target"] = json!({"@type": "TextSelector"}),
+            }
+            items.insert(pos.min(items.len()), broken);
             let path = format!("{}/c14-{}.annotations.json", workdir, k);
             std::fs::write(&path, serde_json::to_string(&items).unwrap()).expect("write");
             let r = guard(|| h.store.annotate_from_file(&path).map(|_| ()).map_err(|e| format!("{}", e)));
@@ -443,7 +466,7 @@ fn batch_fault(rep: &mut Report, rng: &mut Rng, h: &mut History, g: &mut Gen, wo
             if let Some((first, detail)) = leftover(&before, &after) {
                 let leak = leak_class(&before, &after);
                 rep.count(&format!("left-behind/{}/{}", api, leak));
-                let cls = if api == "query-add-offset" {
+                let cls = if api == "query-add-offset" || api == "annotate_from_file-malformed-item" {
                     // refused before anything is added on the pinned tree
                     leak.clone()
                 } else if api == "query-add" && leak != "annotations+datasets+keys+data" {
